@@ -174,6 +174,12 @@ pub struct Machine<'p> {
     track_live: Vec<bool>,
     block_live: Vec<bool>,
     last_sc_fence: Option<usize>,
+    cell_val: Vec<u64>,
+    /// guided replay: a cell read returned something else than the latest write (only legal in
+    /// an execution that has a data race)
+    pub cell_mismatch: bool,
+    /// edges that belong to the largest happens-before only (kept apart in MAY mode)
+    pub extra_large: Vec<(usize, usize)>,
     pub results: Vec<Vec<Option<u64>>>,
     /// executed (thread, pc) in order
     pub trace: Vec<(u8, u16)>,
@@ -238,6 +244,9 @@ impl<'p> Machine<'p> {
             track_live: vec![false; p.n_track as usize],
             block_live: vec![false; p.n_block as usize],
             last_sc_fence: None,
+            cell_val: vec![0; p.n_cell as usize],
+            cell_mismatch: false,
+            extra_large: Vec::new(),
             results: p.threads.iter().map(|t| vec![None; t.len()]).collect(),
             trace: Vec::new(),
             race: None,
@@ -649,9 +658,11 @@ impl<'p> Machine<'p> {
                 // [envelope] MUST (largest hb): SeqCst fences synchronise in their total order (the
                 // "SC fence = acq-rel RMW on one global location" reading loom documents)
                 if o.is_sc() {
-                    if self.cfg.reading == Reading::Must {
-                        if let Some(prev) = self.last_sc_fence {
+                    if let Some(prev) = self.last_sc_fence {
+                        if self.cfg.reading == Reading::Must {
                             self.g.extra.push((prev, e));
+                        } else {
+                            self.extra_large.push((prev, e));
                         }
                     }
                     self.last_sc_fence = Some(e);
@@ -748,9 +759,11 @@ impl<'p> Machine<'p> {
                         self.g.extra.push((u, e));
                     }
                     // [envelope] MUST: reader -> later reader edge (largest hb)
-                    if must {
-                        for &u in &st.runlocks {
+                    for &u in &st.runlocks {
+                        if must {
                             self.g.extra.push((u, e));
+                        } else {
+                            self.extra_large.push((u, e));
                         }
                     }
                 }
@@ -944,15 +957,16 @@ impl<'p> Machine<'p> {
                 let st = &mut self.chan[c as usize];
                 if let Some((v, s)) = st.queue.pop_front() {
                     res = Some(v);
-                    if must {
-                        // [envelope] MUST: every send up to this one happens-before the receive
-                        let upto = st.sends.iter().position(|&x| x == s).unwrap();
-                        for &x in &st.sends[..=upto] {
+                    // [envelope] MUST: every send up to this one happens-before the receive
+                    let upto = st.sends.iter().position(|&x| x == s).unwrap();
+                    for &x in &st.sends[..upto] {
+                        if must {
                             self.g.extra.push((x, e));
+                        } else {
+                            self.extra_large.push((x, e));
                         }
-                    } else {
-                        self.g.extra.push((s, e));
                     }
+                    self.g.extra.push((s, e));
                 } else {
                     assert!(matches!(op, Op::TryRecv { .. }));
                     res = Some(R_EMPTY);
@@ -968,10 +982,26 @@ impl<'p> Machine<'p> {
                 st.rx_alive = false;
             }
             Op::DropTx { .. } => {}
-            Op::CRead { c } | Op::CWrite { c } => {
+            Op::CRead { c } => {
                 let e = self.push_ev(t, pc, EK::Sync, CELL_BASE + c as u16, MO::Rlx);
                 self.g.evs[e].na = true;
-                self.g.evs[e].na_write = matches!(op, Op::CWrite { .. });
+                self.g.evs[e].na_write = false;
+                // a race-free read sees the latest write; in a racy execution the value is
+                // unspecified (the execution is flagged as a race instead)
+                if self.guided {
+                    res = exp.or(Some(self.cell_val[c as usize]));
+                    if exp.is_some() && exp != Some(self.cell_val[c as usize]) {
+                        self.cell_mismatch = true;
+                    }
+                } else {
+                    res = Some(self.cell_val[c as usize]);
+                }
+            }
+            Op::CWrite { c, v } => {
+                let e = self.push_ev(t, pc, EK::Sync, CELL_BASE + c as u16, MO::Rlx);
+                self.g.evs[e].na = true;
+                self.g.evs[e].na_write = true;
+                self.cell_val[c as usize] = v;
             }
             Op::ArcClone { r } => {
                 self.push_ev(t, pc, EK::Sync, NOLOC, MO::Rlx);
@@ -1125,6 +1155,14 @@ impl<'p> Machine<'p> {
 
     pub fn outcome(&self) -> String {
         outcome_string(self.p, &self.results)
+    }
+
+    /// The largest happens-before of the execution replayed so far (MUST reading of release
+    /// sequences plus every envelope edge), whatever reading the machine runs under.
+    pub fn hb_large(&self) -> Rel {
+        let mut g = self.g.clone();
+        g.extra.extend(self.extra_large.iter().cloned());
+        g.hb(Reading::Must)
     }
 
     pub fn has_na_events(&self) -> bool {
